@@ -15,7 +15,7 @@ RULE = (
     "wrong pairing id, authentication/busy error TLV, 31-byte key (unexpected exception), garbage TLV, silence, drop right after verify) "
     "from the seed; actors: zeroconf description updates (same/changed address sets), callers with/without own timeout or "
     "cancellation, close()/shutdown(), peer FIN/RST, peer closing abandoned connections; horizons 30 s .. 2 h virtual; then "
-    "faults stop, every address reaches the genuine accessory, and the run is judged after >= 80 s. "
+    "faults stop, every address reaches the genuine accessory, and the run is judged after 150 s (an attempt in flight may take 70 s, plus one 60 s back-off). "
     "Non-trivial = a fault/non-default decision fired and oracle obligations were evaluated; distinct = distinct event-log digest."
 )
 REAL = REAL_IP
@@ -25,7 +25,7 @@ ASSUMPTIONS = [
     "back-off lower bound asserted is 0.5 s (the implementation's first delay is 0.75 s); growth = non-decreasing untriggered gaps",
     "an address excluded for a wrong pairing id is only required to be retried once every address is excluded or the advertised set changes (what the code documents)",
 ]
-TIERS = {"quick": {"runs": 5000, "wall": 60}, "thorough": {"runs": 300000, "wall": 1500}}
+TIERS = {"quick": {"runs": 20000, "wall": 60}, "thorough": {"runs": 300000, "wall": 1500}}
 
 BEHAVIOURS = ["close_m1", "close_m3", "rst_m1", "rst_m3", "http4xx_m1", "http4xx_m3", "bad_sig", "wrong_id", "auth_m2", "auth_m4",
               "busy_m2", "short_key", "silent_m1", "silent_m3", "garbage", "rst_after_verify", "fin_after_verify", "unknown_http"]
@@ -101,7 +101,7 @@ def gen_plan(seed: int, tier: str, focus: str = "c10") -> dict:
         if a not in addrs:
             profile["hosts"].append([a, r.choice(["genuine", "refuse", "other", "unreachable"])])
     heal_at = horizon + 5.0
-    return {"profile": profile, "ops": ops, "listeners": {"L0": {}}, "heal_at": heal_at, "end_at": heal_at + 80.0,
+    return {"profile": profile, "ops": ops, "listeners": {"L0": {}}, "heal_at": heal_at, "end_at": heal_at + 150.0,
             "heal_probe": r.choice([0, 0, 1, 2]), "tag_reads": True, "allow_other_exceptions": True}
 
 
